@@ -98,6 +98,12 @@ def _holder(ctx, f, arg):
                 isinstance(fa.value.value, ast.Attribute) and \
                 fa.value.value.attr == "payloads" and len(facts) == 1:
             return text(fa.value.value.value)
+        if fa.kind == "expr" and isinstance(fa.value, ast.Call) and \
+                isinstance(fa.value.func, ast.Attribute) and \
+                fa.value.func.attr in ("getPayload", "getPayloadRef") and \
+                len(fa.value.args) == 1 and len(facts) == 1:
+            # a one-coordinate access delivers a payload of that very fiber
+            return text(fa.value.func.value)
     if is_param and not facts:
         # lambda p: ... mapped over X.payloads
         node = f.node
